@@ -315,6 +315,19 @@ pub fn run_c12(tier: Tier) -> i32 {
         let n2 = for_family(&Flipped(&sf), &|p| visit(&ctx, p));
         fams.push(json!({"family": sf.name(), "legal_members": n, "flipped_members": n2, "secs": t0.elapsed().as_secs_f64()}));
     }
+    // C12: boards with a history (plies made, legal moves probed, plies taken back) written through
+    // both conversions
+    {
+        let t0 = Instant::now();
+        let ks: Vec<usize> = if tier == Tier::Quick { (1..=12).chain([20, 41]).collect() } else { (1..=40).chain([80, 160, 400]).collect() };
+        let n = std::sync::atomic::AtomicU64::new(0);
+        let jobs: Vec<(usize, u64)> = (0..roots.len()).flat_map(|r| [(r, 7u64), (r, 1_000_003)]).collect();
+        par_map(&jobs, |&(r, rule)| {
+            n.fetch_add(crate::board_checks::c12_history_writes(&ctx, &roots[r], rule, &ks), std::sync::atomic::Ordering::Relaxed);
+        });
+        fams.push(json!({"family": "boards with a history (k plies made with a legal-move probe every other ply, 0..3 taken back) written through Fen::from(&board) and the owned Fen::from(board)", "roots": roots.len(), "line_lengths": ks, "boards_written": n.load(std::sync::atomic::Ordering::Relaxed), "secs": t0.elapsed().as_secs_f64()}));
+    }
+
     // clock magnitudes on a few roots
     let halves: &[u64] = &[0, 1, 49, 50, 99, 100, 127, 128, 255, 4095, 4096, 65535, 4294967294, 4294967295];
     let fulls: &[u64] = &[1, 2, 3, 100, 2400, 65535, 2147483648, 4294967295];
@@ -440,6 +453,20 @@ pub fn replay_c12(case: &Value) -> bool {
         let counters: [AtomicU64; 4] = Default::default();
         judge_fen_string(&rep, case["input"].as_str().unwrap_or(""), &counters);
         let started = Instant::now();
+        let mut cov = Coverage::new();
+        cov.states = 1;
+        println!("replay: {} violating case(s) reproduced", rep.violation_count());
+        std::process::exit(finish(&rep, Tier::Quick, cov_take(&mut cov), started));
+    }
+    if case["kind"] == "history_write" {
+        let rep = Reporter::new("C12");
+        let started = Instant::now();
+        let ctx = BoardCtx::new(Prop::C12, &rep);
+        if let Ok(root) = Pos::from_fen(case["fen"].as_str().unwrap_or("")) {
+            let k = case["plies_made"].as_u64().unwrap_or(1) as usize;
+            let n = crate::board_checks::c12_history_writes(&ctx, &root, case["rule"].as_u64().unwrap_or(7), &[k]);
+            println!("{} plies made from {} with a legal-move probe every other ply, 0..3 taken back: {} boards written through both conversions", k, root.to_fen(), n);
+        }
         let mut cov = Coverage::new();
         cov.states = 1;
         println!("replay: {} violating case(s) reproduced", rep.violation_count());
